@@ -262,6 +262,25 @@ def coq_closure(prop):
     return seen
 
 
+def coq_chk(prop, timeout=1800):
+    """Independent re-check of the property's compiled closure with coqchk; returns
+    (ok, summary dict).  ok requires: no axioms, nothing relying on type-in-type, unsafe
+    fixpoints or assumed positivity."""
+    with Lock("coq"):
+        rc, out = sh(["coqchk", "-o", "-silent", "-Q", COQ, "NS", "NS.Properties.%s" % prop], timeout=timeout)
+    summ = {}
+    cur = None
+    for line in out.splitlines():
+        m = re.match(r"\* (Axioms|Constants/Inductives relying on type-in-type|Constants/Inductives relying on unsafe \(co\)fixpoints|Inductives whose positivity is assumed):\s*(.*)", line.strip())
+        if m:
+            cur = m.group(1)
+            summ[cur] = [m.group(2).strip()] if m.group(2).strip() else []
+        elif cur and line.strip() and not line.strip().startswith("*"):
+            summ[cur].append(line.strip())
+    ok = rc == 0 and len(summ) == 4 and all(v == ["<none>"] for v in summ.values())
+    return ok, {"rc": rc, "summary": summ, "tail": out[-400:] if not ok else ""}
+
+
 def grep_forbidden(prop=None):
     """Scans the .v files the property depends on (all of them when prop is None), comments
     stripped, for forbidden vernacular."""
